@@ -65,6 +65,11 @@ def derivN (I : K) (vs : List K) (x : K) : K := vs.foldl (fun acc v => derivStep
 /-- `0.5 * (A + A.swapaxes.conj())` for one element -/
 def hermitize (half : K) (conj : K → K) (A : Nat → Nat → K) (a b : Nat) : K := half * (A a b + conj (A b a))
 
+/-- `Data_K._rotate` for one k-point and one Cartesian component:
+    `einsum('kba,kbc...,kcd->kad...', UU.conj(), mat, UU)`, i.e. `(U† X U)_{ad} = Σ_b Σ_c conj(U_ba) X_bc U_cd` -/
+def rotate (n : Nat) (conj : K → K) (U X : Nat → Nat → K) (a d : Nat) : K :=
+  sumK ((List.range n).map fun b => sumK ((List.range n).map fun c => conj (U b a) * X b c * U c d))
+
 /-! ### the Fourier state of ONE `Rvectors` object over a history of `set_fft_R_to_k` calls -/
 
 inductive Lib where
@@ -172,6 +177,14 @@ def handle : List String → String
         ++ showListWith showGRat ";" (pts.map (slowPath z N χd entries)) ++ " | "
         ++ showListWith showGRat ";" (pts.map fun m => explicitSum (fun r => gchar false N m r * χd r) entries)
     | _, _, _, _, _, _, _, _, _ => "bad-op"
+  -- Data_K._rotate: n, U (n x n row-major), X (n x n row-major)  ->  U^dagger X U (row-major)
+  | ["rotate", n, us, xs] =>
+    match parseNat? n, parseGRats? us, parseGRats? xs with
+    | some n, some U, some X =>
+      let Uf : Nat → Nat → GRat := fun i j => U.getD (i * n + j) 0
+      let Xf : Nat → Nat → GRat := fun i j => X.getD (i * n + j) 0
+      showListWith showGRat ";" ((List.range n).flatMap fun a => (List.range n).map fun d => rotate n GRat.conj Uf Xf a d)
+    | _, _, _ => "bad-op"
   -- a history of set_fft_R_to_k calls on ONE object, R_to_k(apply_expdK(X)) after each:
   --   steps separated by '#':  "g:N1,N2,N3:lib:q1,q2,q3" (lib 0 = fft, 1 = slow, dK = q/4)  |  "k:t1,t2,t3;..." (k = t/4)
   | ["seq", steps, rs, xs] =>
